@@ -110,12 +110,18 @@ def enumerate_cases(tier, rng, chk):
             combos.append((d, shape, attr))
     sel = []
     if tier == "thorough":
+        few = ["none", "T", "'a,T,N", "T,U=T,N=2 where", "Item,Err,Rhs", "N,M:bool"]
         for (d, shape, attr) in combos:
+            if "~" in attr:
+                # spelling variation is independent of generics / names: a few generics sets, plain names
+                for gname in few[:4]:
+                    sel.append((d, shape, gname, "plain", attr, "plain"))
+                continue
             for gname in C.GSET_NAMES:
                 for naming in ("plain", "raw"):
                     for fl in C.FLAVOURS:
                         sel.append((d, shape, gname, naming, attr, fl))
-                if "~" not in attr:
+                if gname in few:
                     for naming in C.ASSOC_NAMINGS:
                         sel.append((d, shape, gname, naming, attr, "plain"))
     else:
@@ -202,7 +208,7 @@ def families_for(c, real):
         if [nows(w) for w in g["where"]] != list(where[:nwhere]):
             return ["FFmt %s []" % C.c_str(h[1])]
         extra = where[nwhere:]
-        preds = C.c_list("PUser (U %s %s)" % (common.coq_str(w), C.c_list(C.c_str(n) for n in free_ws(w, g))) for w in extra)
+        preds = C.c_list("PUser (U %s %s)" % (C.c_str(w), C.c_list(C.c_str(n) for n in free_ws(w, g))) for w in extra)
         return ["FFmt %s %s" % (C.c_str(h[1]), preds)]
     if h[0] == "mul":
         _, fam, tr, n = h
@@ -227,7 +233,7 @@ def families_for(c, real):
         bounds = []
         for w in where[:max(k, 0)]:
             bounds.append(w.split(":derive_more::core::fmt::Debug")[0])
-        return ["FError %s" % C.c_list("(U %s %s)" % (common.coq_str(b), C.c_list(C.c_str(n) for n in free_ws(b, g)))
+        return ["FError %s" % C.c_list("(U %s %s)" % (C.c_str(b), C.c_list(C.c_str(n) for n in free_ws(b, g)))
                                        for b in bounds)]
     return None
 
@@ -248,38 +254,59 @@ def model_render(t):
     return (tuple(py_str(p) for p in params), tr, py_str(self_ty), tuple(py_str(w) for w in where))
 
 
+def coq_rendered(h):
+    params, tr, self_ty, where = h
+    return "(%s, %s, %s, %s)" % (C.c_list(C.c_str(p) for p in params), "None" if tr is None else "Some %s" % C.c_str(tr),
+                                 C.c_str(self_ty), C.c_list(C.c_str(w) for w in where))
+
+
 def run_tie(chk, cases, expansions):
-    exprs, idx = [], []
+    """model headers vs real headers; the comparison itself runs inside Coq (`rendereds_eqb`), only mismatching cases
+    (and the order-insensitive ones) are printed and compared here"""
+    exprs, idx, printed = [], [], []
     fams_of = {}
     for i, c in enumerate(cases):
         r = expansions[i]
         if "ok" not in r or getattr(c, "is_companion_twin", False):
             continue
+        if "~" in c.attr and chk.tier == "quick":
+            continue        # same headers as the unspelled attribute (tied above); the thorough tier ties these too
+        if c.attr.startswith("tyform") and chk.tier == "quick" and (c.naming, c.flavour) != ("plain", "plain"):
+            continue        # one tie per type form in the quick tier (all of them are compiled by the oracle)
         real = real_headers(r.get("items") or [])
         fams = families_for(c, real)
         if fams is None:
             continue
-        fams_of[i] = (fams, real)
         g = C.c_generics(c.item.g)
-        exprs.append("map (fun f => render %s (header f %s)) %s" %
-                     (C.c_str(c.item.name), g, C.c_list("(%s)" % f for f in fams)))
-        idx.append(i)
-    terms = common.coq_eval(["Verif.C01.Model"], exprs, batch=min(120, max(20, (len(exprs) + 15) // 16)), tag="c01")
-    n = 0
-    for i, t in zip(idx, terms):
+        model = "map (fun f => render %s (header f %s)) %s" % (C.c_str(c.item.name), g, C.c_list("(%s)" % f for f in fams))
+        fams_of[i] = (fams, real, model)
+        if c.unordered:
+            printed.append(i)
+        else:
+            exprs.append("rendereds_eqb (%s) %s" % (model, C.c_list(coq_rendered(h) for h in real)))
+            idx.append(i)
+    bs = min(150, max(20, (len(exprs) + 15) // 16))
+    verdicts = common.coq_eval(["Verif.C01.Model"], exprs, batch=bs, tag="c01")
+    printed += [i for i, v in zip(idx, verdicts) if v != "true"]
+    terms = common.coq_eval(["Verif.C01.Model"], [fams_of[i][2] for i in printed], batch=60, tag="c01p")
+    n = len(idx) - sum(1 for v in verdicts if v != "true")
+    for i in idx:
+        chk.bump("tie:" + C.group_of(cases[i].derive))
+    for i, t in zip(printed, terms):
         c = cases[i]
-        fams, real = fams_of[i]
+        fams, real, _ = fams_of[i]
         model = [model_render(x) for x in (t if isinstance(t, list) else [t])]
         a, b = list(real), list(model)
         if c.unordered:
             a, b = sorted(a, key=repr), sorted(b, key=repr)
-        n += 1
-        chk.bump("tie:" + C.group_of(c.derive))
+            chk.bump("tie:" + C.group_of(c.derive))
         if a != b:
             chk.violation("tie-header:" + C.group_of(c.derive),
                           {"key": c.key(), "item": c.expand_source(), "families": fams, "model": b, "real": a},
                           "Coq model of the impl header disagrees with the real expansion of derive(%s) on `%s`: model %s, real %s"
                           % (c.derive, c.expand_source()[:200], b[:2], a[:2]))
+        else:
+            n += 1
     chk.cov["traces_validated_against_impl"] = n
     return n
 
